@@ -194,6 +194,10 @@ def run_case(case):
     return lines, outs, fails, info
 
 
+def job_run(case):
+    return run_case(case)
+
+
 def payload_of(rng, n, mode):
     if mode == 0:
         return bytes(rng.randrange(256) for _ in range(n))
@@ -247,12 +251,46 @@ def run(ctx):
         "the caller supplies a header with pad_octet_count = the generator's pad count, blocks_to_follow = number of data blocks (<= 127), A bit = confirmed mode",
         "payload length < 2^50",
     ]
+    c08.lib()  # import the library before any worker is forked
     rng = ctx.rng
     pairs = []
     idx = 0
+    jobs = []
 
-    def do(desc, case, sample=False):
-        lines, outs, fails, info = run_case(case)
+    def add(desc, case, sample=False):
+        jobs.append((desc, case, sample))
+
+    for desc, rate, confirmed, n in CORPUS:
+        for k in (0, 1, 16):
+            case = make_case(rng, rate, confirmed, n, idx)
+            case["k"] = k
+            if "zeros" in desc:
+                case["payload"] = bytes(n).hex()
+            add(desc, case, sample=k == 1)
+            idx += 1
+        ctx.count("corpus")
+    for rate in RATES:
+        for confirmed in (True, False):
+            per, last = TABLE[(rate, confirmed)]
+            edge = 126 * per + last
+            if ctx.thorough():
+                lens = list(range(0, 1501)) + [x for x in (edge - 1, edge, edge + 1, edge + per, edge + per + 1) if x > 1500]
+            else:
+                lens = set(range(0, 65))
+                lens |= {rng.randrange(65, 1501) for _ in range(ctx.budget(30, 30))}
+                # boundaries of the 7-bit block counter and of the block grid
+                lens |= {edge - 1, edge, edge + 1, edge + per, edge + per + 1, 1500}
+                lens |= {m * per + last + d for m in (1, 2, 5) for d in (-1, 0, 1)}
+                lens = sorted(lens)
+            for n in lens:
+                add("sweep", make_case(rng, rate, confirmed, n, idx), sample=(n == 33 and rate == "r34"))
+                idx += 1
+    # extra random (k, cc, payload) combinations at small lengths
+    for _ in range(ctx.budget(200, 2000)):
+        rate, confirmed = rng.choice(RATES), bool(rng.randrange(2))
+        add("random", make_case(rng, rate, confirmed, rng.choice([0, 1, 5, 6, 7, 12, 13, 30, rng.randrange(200)]), rng.randrange(10 ** 6)))
+    for (desc, case, sample), res in zip(jobs, c08.pmap(job_run, [j[1] for j in jobs], c08.workers())):
+        lines, outs, fails, info = res
         ctx.case((case["rate"], case["confirmed"], case["k"], case["cc"], case["payload"]), nontrivial=True,
                  sample={"case": desc, "rate": case["rate"], "confirmed": case["confirmed"], "k": case["k"], "len": len(case["payload"]) // 2,
                          "blocks": info["blocks"], "events": outs[-2].split(" ", 4)[-1][:160] if len(outs) > 3 else outs[-1:]} if sample else None)
@@ -265,36 +303,6 @@ def run(ctx):
         pairs.extend(zip(lines, outs))
         if len(pairs) > 30000:
             flush(ctx, pairs)
-
-    for desc, rate, confirmed, n in CORPUS:
-        for k in (0, 1, 16):
-            case = make_case(rng, rate, confirmed, n, idx)
-            case["k"] = k
-            if "zeros" in desc:
-                case["payload"] = bytes(n).hex()
-            do(desc, case, sample=k == 1)
-            idx += 1
-        ctx.count("corpus")
-    for rate in RATES:
-        for confirmed in (True, False):
-            per, last = TABLE[(rate, confirmed)]
-            if ctx.thorough():
-                lens = list(range(0, 1501))
-            else:
-                lens = set(range(0, 65))
-                lens |= {rng.randrange(65, 1501) for _ in range(ctx.budget(14, 14))}
-                # boundaries of the 7-bit block counter and of the block grid
-                edge = 126 * per + last
-                lens |= {edge - 1, edge, edge + 1, edge + per, min(1500, edge + per + 1), 1500}
-                lens |= {m * per + last + d for m in (1, 2, 5) for d in (-1, 0, 1)}
-                lens = sorted(x for x in lens if 0 <= x <= 1500 or x <= edge + per + 1)
-            for n in lens:
-                do("sweep", make_case(rng, rate, confirmed, n, idx), sample=(n == 33 and rate == "r34"))
-                idx += 1
-    # extra random (k, cc, payload) combinations at small lengths
-    for _ in range(ctx.budget(60, 600)):
-        rate, confirmed = rng.choice(RATES), bool(rng.randrange(2))
-        do("random", make_case(rng, rate, confirmed, rng.choice([0, 1, 5, 6, 7, 12, 13, 30, rng.randrange(200)]), rng.randrange(10 ** 6)))
     flush(ctx, pairs)
     # ---- arithmetic only: the model's block / pad count against Python's float formula, far beyond 1500
     arith = []
